@@ -34,6 +34,7 @@ type Thread struct {
 	steps    int
 	waiting  string
 	daemon   bool
+	detached bool // started by a `go` statement of the code under check (not by the harness or a shim)
 }
 
 type abortT struct{}
@@ -156,12 +157,17 @@ func (s *Sched) fail(kind, msg string) {
 // starts in init() and that lives as long as the process): waiting for work for ever is its normal state.
 func (s *Sched) onlyDaemonsLeft() bool {
 	for _, x := range s.order {
-		if x.state != done && !x.daemon {
+		if x.state != done && !x.daemon && !x.detached {
 			return false
 		}
 	}
 	return true
 }
+
+// Leaked counts, over all executions of the process, goroutines of the code under check that were still
+// blocked when every harness thread (main, clients, connections) had finished: a goroutine leak, which a
+// Go process ends by exiting; not a deadlock of anything the properties talk about.
+var Leaked int64
 
 func (s *Sched) daemonsParked() bool {
 	for _, x := range s.order {
@@ -220,8 +226,14 @@ func (s *Sched) point(t *Thread, label string) {
 			}
 			return
 		}
-		// everything finished (daemon threads still waiting for work are unwound quietly)
+		// everything finished (daemon threads still waiting for work, and goroutines of the code under
+		// check that outlive every harness thread, are unwound quietly)
 		if alive {
+			for _, x := range s.order {
+				if x.state == blocked && x.detached && !x.daemon {
+					Leaked++
+				}
+			}
 			s.abortAll(t)
 		}
 		return
@@ -327,7 +339,7 @@ func Go(f func()) {
 		return
 	}
 	parent.nspawn++
-	parent.s.spawn(fmt.Sprintf("%s/%d", parent.Name, parent.nspawn), f)
+	parent.s.spawn(fmt.Sprintf("%s/%d", parent.Name, parent.nspawn), f).detached = true
 }
 
 // GoNamed starts a thread with a fixed name (used by harnesses and shims).
